@@ -103,6 +103,20 @@ def fin_from_gen(ctx=None):
     return re.findall(r'"((?:[^"]|"")*)"', m.group(1))
 
 
+def flags_from_gen():
+    """(giveback, recheck): which shape of _start_passive_server the translator found (false, false on the current
+    source); justified inside Coq by C11_ladder_obligation.  (False, False) when the translator failed."""
+    try:
+        txt = (core.COQ / "Gen" / "PortPool.v").read_text()
+    except OSError:
+        txt = ""
+    out = []
+    for name in ("sps_giveback", "sps_recheck"):
+        m = re.search(r"Definition %s : bool := (true|false)\." % name, txt)
+        out.append(bool(m) and m.group(1) == "true")
+    return tuple(out)
+
+
 def hier_from_source():
     import aioftp.errors as E
 
@@ -740,7 +754,9 @@ def correspondence(ctx, budget=None):
     ctx.count("random_histories", n_rand)
 
     # model in one batch
-    cases = [(0, [[d.ports, hier, list(fin), True], d.events]) for _, d in drivers]
+    gb, rc = flags_from_gen()
+    ctx.extra["source_shape"] = {"giveback_on_cancel": gb, "recheck_after_startup": rc}
+    cases = [(0, [[d.ports, hier, list(fin), True, gb, rc], d.events]) for _, d in drivers]
     mres = ctx.model(cases)
     qres = ctx.model([(2, c[1]) for c in cases])
     kinds = collections.Counter()
